@@ -705,9 +705,16 @@ func rawRule(c *Ctx, r *Report, rule string) {
 					hasW = true
 				}
 				if bt, ok := a.Type().Underlying().(*types.Basic); ok && bt.Info()&types.IsString != 0 {
-					if _, isC := a.(*ssa.Const); !isC {
-						strArg = a
+					if _, isC := a.(*ssa.Const); isC {
+						continue
 					}
+					// the text of a number, a boolean or a time made by a formatter is not a string of the value
+					if fc, isCall := a.(*ssa.Call); isCall {
+						if f := calleeObj(fc); f != nil && f.Pkg() != nil && numericFormatters[f.Pkg().Name()+"."+f.Name()] {
+							continue
+						}
+					}
+					strArg = a
 				}
 			}
 			if !hasW || strArg == nil {
